@@ -312,10 +312,14 @@ class C01(Check):
             return
         ps = GS.parax_from_optic(o)
         ya, ua = ps.marginal(spec['ap']['type'], spec['ap']['value'])
+        # solved positions z carry round-off eps |z| (and the entrance pupil found through the reversed system, shifted by the
+        # last vertex, inherits it): the marginal slope turns that into a height error ~ |u| eps |z| x pupil conditioning
+        zmax = float(np.nanmax(np.abs(np.ravel(o.surface_group.positions)[1:]))) if m.K else 0.0
+        usc = max([abs(float(v)) for v in ua if math.isfinite(float(v))] + [0.0])
         for (k, h) in (only if only is not None else m.solves):
             ysc = max(1e-3, max(abs(v) for v in ya))
-            out.close('solve_places_marginal_ray', ya[k - 1], h, atol=1e-9 * max(ysc, abs(h), 1.0), surface=k,
-                      step=step, op=opname)
+            out.close('solve_places_marginal_ray', ya[k - 1], h, atol=1e-8 * max(ysc, abs(h), 1.0) + 1e-11 * zmax * usc,
+                      surface=k, step=step, op=opname)
 
     def do_variable(self, o, m, op, out, step, solve_gaps, finite_obj, Lsc):
         from optiland.optimization.variable.variable import Variable
